@@ -24,6 +24,8 @@
 (*                           right after it) instead of breadth first      *)
 (*   "id_key_joined"         the id is a function of text and meaning      *)
 (*                           joined without separator                      *)
+(*   "fp_of_valid_utf8"      the fingerprint is taken of the text made     *)
+(*                           valid UTF-8 (runs of invalid bytes -> U+FFFD) *)
 (*   "tag_case_kept"         a tag's name is not lower-cased before it is  *)
 (*                           turned into a placeholder name                *)
 (*   "skips_call_params"     the pass that names placeholders does not     *)
@@ -168,6 +170,13 @@ IdSeparatesTextAndMeaning ==
     \A i \in 1..Len(MsgSplitStrings[cas.s]) :
        i # cas.at => IdModel(Mk(Body, MsgFamMeaning(cas), "d"))
                      # IdModel(Mk(MsgFamBody([cas EXCEPT !.at = i]), MsgFamMeaning([cas EXCEPT !.at = i]), "d"))
+
+\* the id is a function of the BYTES of the text: different byte strings, different ids
+\* (checked once, on one state)
+IdOfBytes(b) == IF "fp_of_valid_utf8" \in Dev THEN MsgFpBytes(MsgToValid(b)) ELSE MsgFpBytes(b)
+BytesKeepIdentity ==
+  (cas.kind = "split" /\ cas.s = 1 /\ cas.at = 1 /\ todo = {}) =>
+    \A i, j \in 1..Len(MsgByteTexts) : i # j => IdOfBytes(MsgByteTexts[i]) # IdOfBytes(MsgByteTexts[j])
 
 \* the names are those of the breadth-first visiting order, whatever the order
 \* the implementation collects the nodes in
